@@ -8,6 +8,7 @@
 -/
 import Mfi.Model.Interest
 import Mfi.Lemmas.FxL
+import Mfi.Lemmas.ResL
 
 namespace Mfi.Props.C18
 open Mfi Mfi.Fx Mfi.Interest
@@ -791,5 +792,48 @@ example : validateSevenPoint sampleCfg = true ∧ WF sampleCfg := by
   simp [sampleCfg] at hp
   rcases hp with rfl | rfl | rfl <;> decide
 example : (calcInterestRate sampleCfg (ONE / 2)).isOk = true := by decide
+
+/-! ### `migrate_curve` (permissionless): what it leaves behind is an accepted curve -/
+
+/-- whatever `migrate_curve` succeeds with is a configuration that `validate` accepts — so every theorem of this file
+    about accepted curves applies to migrated banks (model Interest.migrateCurve, diffed through the real instruction:
+    `ir.migrate` lines of the curve family) -/
+theorem migrate_result_valid {c c' : IrCalc} (h : migrateCurve c = .ok c') : validate c' = .ok true := by
+  unfold migrateCurve at h
+  obtain ⟨ok, hok, h⟩ := Res.bind_ok h
+  split at h
+  · cases h
+  rename_i hv
+  split at h
+  · injection h with h; subst h
+    simp at hv
+    rw [hok, hv]
+  · obtain ⟨ok', hok', h⟩ := Res.bind_ok h
+    split at h
+    · cases h
+    rename_i hv'
+    injection h with h; subst h
+    simp at hv'
+    rw [hok', hv']
+
+/-- a seven-point curve is left exactly as it is -/
+theorem migrate_seven_point_noop {c c' : IrCalc} (hc : c.curveType = 1) (h : migrateCurve c = .ok c') : c' = c := by
+  unfold migrateCurve at h
+  obtain ⟨ok, _, h⟩ := Res.bind_ok h
+  split at h
+  · cases h
+  · first
+      | (injection h with h; exact h.symm)
+      | (split at h
+         · injection h with h; exact h.symm
+         · rename_i hn; exact absurd hc hn)
+
+/-- (non-vacuity) a usual legacy curve — optimal 80 %, plateau 10 %, max 300 % — migrates to one point on the u32 grid -/
+def usualLegacy : IrCalc :=
+  { optimal := ONE * 8 / 10, plateau := ONE / 10, maxIr := 3 * ONE, insFixed := 0, insRate := 0, grpFixed := 0,
+    grpRate := 0, progFixed := 0, progRate := 0, addProgramFees := false, zeroRate := 0, hundredRate := 0,
+    points := [⟨0, 0⟩, ⟨0, 0⟩, ⟨0, 0⟩, ⟨0, 0⟩, ⟨0, 0⟩], curveType := 0 }
+
+example : ∃ c', migrateCurve usualLegacy = .ok c' ∧ c'.curveType = 1 ∧ c'.zeroRate = 0 := ⟨_, by rfl, by decide, by decide⟩
 
 end Mfi.Props.C18
